@@ -70,7 +70,10 @@ pub fn run_pat_px(l: &[i128]) -> Vec<i128> {
     for p in pm.pixels_mut() {
         *p = PremultipliedColorU8::from_rgba(bgc[0], bgc[1], bgc[2], bgc[3]).unwrap();
     }
-    let bm = if blend == 0 { BlendMode::Source } else { BlendMode::SourceOver };
+    // bit 0: Source / SourceOver; bits 1..: Shader::apply_opacity calls made on the pattern before drawing (kind 2): none | 0.5 | 0.5, 1.0
+    let bm = if blend & 1 == 0 { BlendMode::Source } else { BlendMode::SourceOver };
+    let blend_arg = blend;
+    let blend = blend & 1;
     // total transform from source space to device space
     if kind == 2 {
         // C11: a Pattern's opacity scales edge pixels like interior pixels: anti-aliased fill of the pixmap inset by half a
@@ -79,6 +82,16 @@ pub fn run_pat_px(l: &[i128]) -> Vec<i128> {
         let bg4 = [bgc[0] as f64, bgc[1] as f64, bgc[2] as f64, bgc[3] as f64];
         let mut paint = Paint::default();
         paint.shader = Pattern::new(src.as_ref(), spread, filter, opacity, Transform::identity());
+        let opseq: &[f32] = match (blend_arg >> 1) % 3 {
+            0 => &[],
+            1 => &[0.5],
+            _ => &[0.5, 1.0],
+        };
+        for o in opseq {
+            paint.shader.apply_opacity(*o);
+        }
+        // the opacities multiply
+        let opacity = opacity.max(0.0).min(1.0) * opseq.iter().product::<f32>();
         paint.blend_mode = bm;
         paint.anti_alias = true;
         let mut pb = PathBuilder::new();
@@ -120,6 +133,43 @@ pub fn run_pat_px(l: &[i128]) -> Vec<i128> {
                             }
                             break;
                         }
+                    }
+                }
+            }
+        }
+        return vec![checked, 0, 0, 0, 0, bad, first[0], first[1], first[2], first[3], first[4], 0, 0];
+    }
+    if kind == 3 {
+        // a Pattern with a transform of its own, drawn through a translate-only draw transform (Shader::transform composes the
+        // two), against the same pattern built with the composed transform and drawn with the identity: byte-identical
+        use tiny_skia::Rect;
+        let (dx, dy) = (ox as f32, oy as f32);
+        let rect = match Rect::from_xywh(2.0, 1.0, (w as f32 - 6.0).max(1.0), (h as f32 - 4.0).max(1.0)) {
+            Some(r) => r,
+            None => return vec![-3],
+        };
+        let mut a = pm.clone();
+        let mut bref = pm.clone();
+        let mut paint = Paint::default();
+        paint.blend_mode = bm;
+        paint.shader = Pattern::new(src.as_ref(), spread, filter, opacity, ts);
+        a.fill_rect(rect, &paint, Transform::from_translate(dx, dy), None);
+        let mut paint2 = Paint::default();
+        paint2.blend_mode = bm;
+        paint2.shader = Pattern::new(src.as_ref(), spread, filter, opacity, ts.post_translate(dx, dy));
+        if let Some(r2) = Rect::from_xywh(2.0 + dx, 1.0 + dy, rect.width(), rect.height()) {
+            bref.fill_rect(r2, &paint2, Transform::identity(), None);
+        }
+        let (mut checked, mut bad) = (0i128, 0i128);
+        let mut first = [0i128; 5];
+        for y in 0..h {
+            for x in 0..w {
+                checked += 1;
+                let (p, q) = (a.pixel(x, y).unwrap(), bref.pixel(x, y).unwrap());
+                if p != q {
+                    bad += 1;
+                    if first[2] == 0 {
+                        first = [x as i128, y as i128, 9, p.red() as i128 * 1000 + p.alpha() as i128, q.red() as i128 * 1000 + q.alpha() as i128];
                     }
                 }
             }
